@@ -1,4 +1,6 @@
 """C02 — fill computes the specified function of the weighted multiset of data."""
+import math
+
 import execs
 import gen
 import refeval
@@ -38,7 +40,23 @@ def gen_params(rng, tier):
         if Fraction(float(e)) == e:
             xs.append(float(e))
     rng.shuffle(xs)
-    return {"spec": spec, "stream": stream, "perm_seed": rng.randint(0, 10**9), "edge": {"n": n, "low": low, "high": high, "xs": xs[:12]}}
+    # a SparselyBin with a width that is not a power of two, probed on (floating-point) edges and midpoints whose bin is
+    # decided without ambiguity: the exact quotient (x - origin)/width is not within 1e-9 below an integer, and the
+    # half-open interval [origin + i*w, origin + (i+1)*w) computed in floating point contains x for the same i
+    w = rng.choice([0.1, 0.3, 0.7, 1.1, 0.05, 2.3, 0.6])
+    o = rng.choice([0.0, 0.25, -1.7, 10.0])
+    sx = []
+    for k in rng.sample(range(-12, 13), 10):
+        for x in (o + k * w, o + (k + 0.5) * w):
+            qx = (Fraction(x) - Fraction(o)) / Fraction(w)
+            i = math.floor(qx)
+            if (i + 1) - qx < Fraction(1, 10**9):
+                continue
+            if not (o + i * w <= x < o + (i + 1) * w):
+                continue
+            sx.append([x, i])
+    return {"spec": spec, "stream": stream, "perm_seed": rng.randint(0, 10**9), "edge": {"n": n, "low": low, "high": high, "xs": xs[:12]},
+            "sparse_edge": {"w": w, "o": o, "xs": sx[:12]}}
 
 
 def build(p):
@@ -67,6 +85,8 @@ def build(p):
         erows = [([x, 0.0, 0.0, 0.0, "a", True, [0.0, 0.0], "a"], 1.0) for x in e["xs"]]
         ops += [("new", "eb", espec), ("fills", "eb", erows)]
         expect.append(("pycheck", "c02_edge_reference", "eb"))
+    if p.get("sparse_edge") and p["sparse_edge"]["xs"]:
+        ops.append(("c02sparse", p["sparse_edge"]))
     ops.append(("new", "zf", spec))
     # the closed-form specification of the stream (model: denote) against the filled implementation state
     ops.append(("denote", "dn", "zf", stream, "b"))
@@ -108,8 +128,28 @@ def _all_ok(py, replies, i):
     return ("a fill of well-typed data raised: %s" % bad[:2]) if bad else None
 
 
+class C02Exec(execs.PyExec):
+    def apply(self, op):
+        if op[0] != "c02sparse":
+            return super().apply(op)
+        e = op[1]
+        h = gen.hg.SparselyBin(e["w"], lambda x: x, origin=e["o"])
+        want = {}
+        for x, i in e["xs"]:
+            h.fill(x, 2.0)
+            want[i] = want.get(i, 0.0) + 2.0
+        got = {int(k): v.entries for k, v in h.bins.items()}
+        if got != want:
+            return ("violation: SparselyBin(binWidth=%r, origin=%r) filled at %r: bins %r, the half-open intervals give %r"
+                    % (e["w"], e["o"], [x for x, _ in e["xs"]], got, want))
+        return "ok"
+
+
+execs.PY_ONLY_OPS.add("c02sparse")
+
+
 def make_py():
-    return execs.PyExec()
+    return C02Exec()
 
 
 def oracle(case, py, replies):
